@@ -45,6 +45,8 @@ type caseT struct {
 		Class string `json:"class"`
 		React string `json:"react"`
 		Stale bool   `json:"stale"` // the greeting's capabilities were invalidated by a LOGIN, the new list has not arrived
+		// Unauth: after the ENABLE the client sends UNAUTHENTICATE (answered OK with the same capability list)
+		Unauth bool `json:"unauth"`
 	} `json:"case"`
 }
 
@@ -386,6 +388,17 @@ func runCase(cs *caseT) ([]map[string]interface{}, error) {
 		sc.Write([]byte("* ENABLED UTF8=ACCEPT\r\n" + tag + " OK enabled\r\n"))
 		if _, err := en.Wait(); err != nil {
 			return nil, fmt.Errorf("ENABLE failed: %v", err)
+		}
+	}
+	if cs.Case.Unauth {
+		un := cl.Unauthenticate()
+		tag, _, err := s.serveCommand("grant", false)
+		if err != nil {
+			return nil, fmt.Errorf("UNAUTHENTICATE: %v", err)
+		}
+		sc.Write([]byte(tag + " OK [CAPABILITY " + caps + "] unauthenticated\r\n"))
+		if err := un.Wait(); err != nil {
+			return nil, fmt.Errorf("UNAUTHENTICATE failed: %v", err)
 		}
 	}
 	capTag := ""
